@@ -41,6 +41,7 @@ structure PoolUse where
   fn : String
   line : Nat
   putKind : String
+  puts : Nat
   usesAfterPut : Nat
   escapes : Nat
   deriving Repr
@@ -82,9 +83,10 @@ def allowed (s : Site) : Bool := !s.origins.isEmpty && s.origins.all (originAllo
 def noGlobalWriteOutsideInit (s : Site) : Bool :=
   s.fn == "init" || s.origins.all fun o => match o with | .global _ => false | _ => true
 
-/-- pool discipline: the object is returned on the function's exit path, never used afterwards,
-    never stored or returned. -/
+/-- pool discipline: the object is put back exactly once (one Put site, deferred or plain — a second
+    Put would place the same object in the pool twice and hand it to two goroutines), never used
+    afterwards, never stored or returned. -/
 def poolOk (p : PoolUse) : Bool :=
-  (p.putKind == "defer" || p.putKind == "stmt") && p.usesAfterPut == 0 && p.escapes == 0
+  (p.putKind == "defer" || p.putKind == "stmt") && p.puts == 1 && p.usesAfterPut == 0 && p.escapes == 0
 
 end I3.Policy
